@@ -232,8 +232,10 @@ fn joined_narrow_slots(t: &Ty, v: &Val) -> Vec<usize> {
             (_, Val::Variant(i, Some(p))) => {
                 if let Some(cases) = t.cases() {
                     if let Some(Some(ct)) = cases.get(*i as usize) {
-                        let joined = abi::flatten_variant_payload(&cases, W);
-                        for (j, ft) in abi::flatten(ct, W).iter().enumerate() {
+                        // judged on the wasm32 flattening: on the 8-byte extrapolation a pointer
+                        // slot is i64 as well, which the spec does not define
+                        let joined = abi::flatten_variant_payload(&cases, abi::Width::W4);
+                        for (j, ft) in abi::flatten(ct, abi::Width::W4).iter().enumerate() {
                             if joined[j] == CoreTy::I64 && matches!(ft, CoreTy::I32 | CoreTy::F32) {
                                 out.push(at + 1 + j);
                             }
